@@ -491,7 +491,7 @@ package service
 // covers the stake, an unused id and an account that controls no other miner (in either registry, whatever the
 // status of that miner); a rejected application changes nothing.
 //@ func MinerManager.AddMiner
-//@   property C20 C06
+//@   property C20 C06 C01
 //@   option intmode=math
 //@   requires mm != nil && mm.logger != nil && mm.pkCache != nil && accountdb != nil && miner != nil
 //@   requires seqLen(regSeq(common.MinerTypeValidator)) >= 0 && seqLen(regSeq(common.MinerTypeProposer)) >= 0
